@@ -216,7 +216,7 @@ extern "C" int verif_case(const uint8_t *data, size_t size, struct verif_report 
 			raw &p = RAW[arg % RAW.size()];
 			if (!p.open) continue;
 			unsigned kind = vr_u8(&V) % 8;
-			uint8_t buf[4200]; size_t n = 0;
+			uint8_t buf[4200]; size_t n = 0; static uint8_t big[17000]; bool usebig = false;
 			if (kind <= 2) {			/* the next k bytes of a valid request */
 				size_t left = sizeof valid - QB_MIN(p.off, sizeof valid);
 				n = left ? 1 + vr_u8(&V) % left : 0;
@@ -240,14 +240,22 @@ extern "C" int verif_case(const uint8_t *data, size_t size, struct verif_report 
 				for (size_t i = 0; i < n; i++) buf[i] = vr_u8(&V);
 				p.sane = false; VCLASS(r, K_GARBAGE);
 				VLOG(r, "raw peer %zu: writes %zu bytes of garbage\n", (size_t)(&p - &RAW[0]), n);
-			} else {				/* a valid request with a long tail */
+			} else if (kind == 6) {			/* a valid request with a long tail */
 				n = sizeof valid + 1 + vr_u16(&V) % 4000;
 				memset(buf, 0xee, n); memcpy(buf, &valid, sizeof valid);
 				p.sane = false; VCLASS(r, K_OVERSIZE);
 				VLOG(r, "raw peer %zu: writes a valid request followed by %zu more bytes\n", (size_t)(&p - &RAW[0]), n - sizeof valid);
+			} else {				/* whatever is still missing of a valid request, and then a lot more: a stream that overshoots the record after a slow start */
+				size_t done = QB_MIN(p.off, sizeof valid), rest = sizeof valid - done;
+				size_t extra = (vr_u8(&V) & 1) ? 1 + vr_u8(&V) % 64 : 3000 + vr_u16(&V) % 13000;
+				n = rest + extra;
+				memset(big, 0x41, n); memcpy(big, (uint8_t *)&valid + done, rest);
+				usebig = true;
+				p.sane = false; VCLASS(r, K_OVERSIZE); if (done > 0) VCLASS(r, K_SPLIT);
+				VLOG(r, "raw peer %zu: writes the remaining %zu bytes of a valid request and %zu more\n", (size_t)(&p - &RAW[0]), rest, extra);
 			}
 			if (n) {
-				ssize_t w = send(p.fd, buf, n, MSG_NOSIGNAL | MSG_DONTWAIT);
+				ssize_t w = send(p.fd, usebig ? big : buf, n, MSG_NOSIGNAL | MSG_DONTWAIT);
 				if (w > 0) { p.off += (size_t)w; p.pieces++; if (p.pieces >= 2 && p.stepped_between && !p.sane) nontriv = true; if (p.pieces >= 2 && p.stepped_between) nontriv = true; }
 			}
 			recompute_raw_ok();
